@@ -355,7 +355,7 @@ static void publish_current(const uint8_t* d, size_t n) {
     if (!g_cur) return;
     if (n > g_cur_cap) n = g_cur_cap;
     uint32_t len = (uint32_t)n;
-    memcpy(g_cur + 4, d, n);
+    if (n) memcpy(g_cur + 4, d, n);
     memcpy(g_cur, &len, 4);
 }
 
